@@ -18,6 +18,9 @@ def run(tier):
     for rel, q, c, sites, tag in EM.ITEMS:
         if tag == 'C19':
             reps.append(deductive.verify_function(rel, q, c, hooks=EM.hooks(sites), prefix='%s::%s[update equations]' % (rel, q)))
+    from ..contracts import pubwire as PW
+    for rel, q, c in PW.ITEMS:
+        reps.append(deductive.verify_function(rel, q, c, hooks=PW.hooks_for(c), prefix='%s::%s[wiring]' % (rel, q)))
     from ..contracts import lossgrad as LG
     for rel, q, c, tag in LG.PUBLIC_ITEMS:
         reps.append(deductive.verify_function(rel, q, c, hooks=LG.OneCellHooks(public=True), module_env=LG.ENV, prefix='%s::%s[one-cell instance]' % (rel, q)))
